@@ -86,22 +86,22 @@ def modeled(pipe):
 
 # ---------------------------------------------------------------- running both modes
 
-def plain_group(pipe, items, complete=True):
-    r = M.run_plain(pipe, items, complete=complete)
+def plain_group(pipe, items, complete=True, share=False):
+    r = M.run_plain(pipe, items, complete=complete, share_ops=share)
     err_at = 0
     if r['end'] == 'error':
         err_at = max(1, min(r['endstep'], len(items)))
     return r, err_at
 
 
-def pair_direct(rng, pipe, groups):
+def pair_direct(rng, pipe, groups, share=False):
     """groups: list of (idx, items); several groups may use the same key index one after
     the other (a key slot served again by a later group).  mux: events pushed directly,
     keys interleaved, taps at the two ends of the pipeline only."""
     if isinstance(groups, dict):
         groups = list(groups.items())
     src = G.schedule(rng, groups)
-    tr = M.run_mux(pipe, src, taps='ends')
+    tr = M.run_mux(pipe, src, taps='ends', share_ops=share)
     tail = MC.log_of(tr, [len(pipe)])
     b0 = MC.log_of(tr, [0])
     died = tr['end']['t'] == 'error'
@@ -136,13 +136,13 @@ def pair_direct(rng, pipe, groups):
         life = (idx, seen[idx])
         mux_items = out_of.get(life, [])
         if not died:
-            pr, perr = plain_group(pipe, items)
+            pr, perr = plain_group(pipe, items, share=share)
             g = {'items': items, 'mux': mux_items, 'muxerr': 0, 'plain': [o['v'] for o in pr['out']],
                  'plainend': pr['end'], 'plainerr': perr, 'errtype': pr.get('errtype')}
         else:
             got = items[:pushed.get(life, 0)]
             completed = _completed_before_death(b0, tr['end']['o'], idx, seen[idx])
-            pr, perr = plain_group(pipe, got, complete=completed)
+            pr, perr = plain_group(pipe, got, complete=completed, share=share)
             g = {'items': got, 'mux': mux_items, 'muxerr': pushed.get(life, 0) if life == dead_life else 0,
                  'plain': [o['v'] for o in pr['out']],
                  'plainend': 'completed' if pr['end'] == 'open' else pr['end'], 'plainerr': perr,
@@ -195,7 +195,7 @@ def main(tier, replay):
         w = json.load(open(replay))['witness']
         pipe = json.loads(w['pipe'])
         groups = [(g[0], g[1]) for g in w['groups']]
-        tr, gs = pair_direct(random.Random(w.get('sched_seed', 0)), pipe, groups)
+        tr, gs = pair_direct(random.Random(w.get('sched_seed', 0)), pipe, groups, share=w.get('share_ops', False))
         v, _ = C.validate_traces('PlainTrace', [{'pipe': pipe, 'modeled': modeled(pipe), 'oracle': 'pair',
                                                  'groups': [{k: g[k] for k in g if k != 'errtype'}
                                                             for g in gs]}])
@@ -279,6 +279,33 @@ def main(tier, replay):
                        'groups': [{k: g[k] for k in g if k != 'errtype'} for g in gs]})
         mux_traces.append(tr)
         meta.append({'mode': 'direct', 'groups': groups, 'sched_seed': sched_seed})
+    # dedicated: one python operator object used at several positions of the pipeline
+    # (operators are factories; composition must not care)
+    streaming = [(d, k) for (d, k) in dual_choices('int') if k == 'int' and not completion_triggered(d)]
+    for _ in range(160 if thorough else 40):
+        d = rng.choice(streaming)[0]
+        shape = rng.random()
+        join = rng.choice(['merge', 'zip', 'combine_latest'])
+        if shape < 0.3:
+            pipe = [d, rng.choice(streaming)[0], d] if rng.random() < 0.5 else [d, d]
+        elif shape < 0.6:
+            br = [d] + ([rng.choice(streaming)[0]] if rng.random() < 0.5 else [])
+            pipe = [G.op_tee(join, [br, list(br)] + ([list(br)] if rng.random() < 0.3 else []))]
+        else:
+            pipe = [G.op_tee('merge', [[rng.choice(streaming)[0], d], [d]]), d]
+        groups = []
+        for idx in rng.sample([0, 1, 4], rng.choice([1, 2, 3])):
+            for _g in range(rng.choice([1, 2])):
+                groups.append((idx, G.ints([rng.randint(-1, 5) for _ in range(rng.randint(1, 8))])))
+        sched_seed = rng.randint(0, 10**9)
+        tr, gs = pair_direct(random.Random(sched_seed), pipe, groups, share=True)
+        if any(g.get('errtype') in PRECOND_ERRORS for g in gs):
+            skipped += 1
+            continue
+        traces.append({'pipe': pipe, 'modeled': modeled(pipe), 'oracle': 'pair',
+                       'groups': [{k: g[k] for k in g if k != 'errtype'} for g in gs]})
+        mux_traces.append(tr)
+        meta.append({'mode': 'direct', 'groups': groups, 'sched_seed': sched_seed, 'share_ops': True})
     V.phase('real executions (both modes)')
 
     verdicts, st = C.validate_traces('PlainTrace', traces)
@@ -291,6 +318,7 @@ def main(tier, replay):
             g = tr['groups'][v[1] - 1]
             V.violation({'ops': ' '.join(MC.op_names(tr['pipe'])), 'pipe': json.dumps(tr['pipe'], sort_keys=True),
                          'mode': mt['mode'], 'groups': mt['groups'], 'sched_seed': mt['sched_seed'],
+                         'share_ops': mt.get('share_ops', False),
                          'group': g}, v[2], detail='group %d' % v[1])
     # localisation only: the multiplexed side against the layer-A contracts
     st2 = {}
